@@ -457,11 +457,11 @@ func (r *result) adjustEnv(env []*KeyValue, plugin string) error {
 
 	// first split removals from the rest of adjustments
 	add := []*KeyValue{}
-	del := map[string]struct{}{}
+	del := map[string]*KeyValue{}
 	mod := map[string]struct{}{}
 	for _, e := range env {
 		if key, marked := e.IsMarkedForRemoval(); marked {
-			del[key] = struct{}{}
+			del[key] = e
 		} else {
 			add = append(add, e)
 			mod[key] = struct{}{}
@@ -499,6 +499,13 @@ func (r *result) adjustEnv(env []*KeyValue, plugin string) error {
 			return err
 		}
 		r.reply.adjust.Env = append(r.reply.adjust.Env, e)
+	}
+
+	// next, apply deletions with no corresponding additions
+	for _, e := range del {
+		if _, ok := mod[api.ClearRemovalMarker(e.Key)]; !ok {
+			r.reply.adjust.Env = append(r.reply.adjust.Env, e)
+		}
 	}
 
 	// finally, apply additions/modifications to plugin container creation request
